@@ -140,8 +140,11 @@ namespace occa {
   }
 
   bool modeKernel_t::isNoop() const {
+    // The launcher computes run-time loop ranges in signed arithmetic:
+    // an empty range can come out negative, which wraps around when stored in [udim_t]
     return (
       outerDims.isZero() || innerDims.isZero()
+      || outerDims.hasNegativeEntries() || innerDims.hasNegativeEntries()
     );
   }
 }
